@@ -1,3 +1,4 @@
 pub mod prog;
 pub mod pop;
 pub mod lib;
+pub mod boundary;
